@@ -25,6 +25,11 @@ fn small_ops(u: &mut Unstructured, max: usize) -> arbitrary::Result<Vec<Op>> {
 }
 
 fuzz_target!(|data: &[u8]| {
+    // libfuzzer-sys aborts on every panic through its panic hook; panics the library documents
+    // (Batch::new on ragged columns) are expected and caught inside the case runner, so the hook is
+    // wrapped: silent while a case runs, libFuzzer's own (report + abort) otherwise.
+    static HOOK: std::sync::Once = std::sync::Once::new();
+    HOOK.call_once(vcore::runner::install_quiet_panic_hook);
     let mut u = Unstructured::new(data);
     let case = (|| -> arbitrary::Result<DeserCase> {
         let base = small_ops(&mut u, 10)?;
